@@ -40,21 +40,58 @@ EXCLUDE = {
 }
 
 
+# groups of functions that call each other: every function becomes its own top-level definition (all are declared by
+# prototypes above), so the reorder rewrite also permutes callers against callees
+CALLGRAPH = [
+    ('cpp', 'static int thr_{n}(int x) {{\n    if (x > {k})\n        throw x;\n    return x;\n}}\n\n'
+            'int nt1_{n}(int x) noexcept {{\n    return thr_{n}(x) + 1;\n}}\n\n'
+            'int nt2_{n}(int x) noexcept {{\n    return thr_{n}(x) + 2;\n}}\n'),
+    ('cpp', 'static int mid_{n}(int x);\n\nstatic int leaf_{n}(int x) {{\n    if (x == {k})\n        throw 1;\n    return x;\n}}\n\n'
+            'static int mid_{n}(int x) {{\n    return leaf_{n}(x) * 2;\n}}\n\n'
+            'int top1_{n}(int x) noexcept {{\n    return mid_{n}(x);\n}}\n\n'
+            'int top2_{n}(int x) noexcept {{\n    return mid_{n}(x) + leaf_{n}(x);\n}}\n'),
+    ('any', 'static int hlp_{n}(int *p) {{\n    return *p + {k};\n}}\n\n'
+            'int usea_{n}(void) {{\n    int v = {k};\n    return hlp_{n}(&v);\n}}\n\n'
+            'int useb_{n}(void) {{\n    int *q = 0;\n    return hlp_{n}(q);\n}}\n'),
+    ('any', 'static int rec_{n}(int d) {{\n    if (d <= 0)\n        return {k};\n    return rec_{n}(d - 1) + 1;\n}}\n\n'
+            'int recuser_{n}(void) {{\n    int a[{k4}];\n    a[{k4}] = rec_{n}(3);\n    return a[0];\n}}\n'),
+    ('any', 'static int div_{n}(int a, int b) {{\n    return a / b;\n}}\n\n'
+            'int divzero_{n}(int a) {{\n    return div_{n}(a, 0);\n}}\n\n'
+            'int divok_{n}(int a) {{\n    return div_{n}(a, {k});\n}}\n'),
+    ('cpp', 'int pterm_{n}(int d) noexcept {{\n    if (d <= 0)\n        return 0;\n    return pexpr_{n}(d - 1);\n}}\n\n'
+            'int pexpr_{n}(int d) noexcept {{\n    int r = pterm_{n}(d);\n    if (r > {k})\n        throw r;\n    return r;\n}}\n'),
+    ('any', 'int even_{n}(int d) {{\n    if (d == 0)\n        return 1;\n    return odd_{n}(d - 1);\n}}\n\n'
+            'int odd_{n}(int d) {{\n    int a[{k4}];\n    if (d == 0)\n        return 0;\n    a[{k4}] = even_{n}(d - 1);\n    return a[0];\n}}\n'),
+    ('cpp', 'class CG_{n} {{\npublic:\n    int run_{n}(int x) {{ return priv_{n}(x) + {k}; }}\nprivate:\n    int priv_{n}(int x) {{ return x * 2; }}\n    int never_{n}(int x) {{ return x * 3; }}\n}};\n\n'
+            'int cguser_{n}(int x) {{\n    CG_{n} c;\n    return c.run_{n}(x);\n}}\n'),
+]
+
+
 def snippet_program(rng, lang):
     """-> (prelude lines, blocks (lists of lines), tail lines, rename candidates)"""
     pool = [s for s in projgen.SNIPPETS if s[1] in ('any', lang)]
     prelude = (projgen.C_PRELUDE if lang == 'c' else projgen.CPP_PRELUDE).strip().split('\n')
     blocks = []
     protos = []
+    cg = [c for c in CALLGRAPH if c[0] in ('any', lang)]
     for k in range(rng.randint(3, 9)):
-        sn = rng.choice(pool)
-        txt = projgen._fmt(sn[2], 's%d' % k, rng)
-        txt = txt.replace(' get()', ' get_s%d()' % k).replace(' calc(', ' calc_s%d(' % k)   # exclusion unique-member-names
-        lines = txt.rstrip('\n').split('\n') + ['']
-        blocks.append(lines)
-        head = lines[0]
-        if not head.startswith(('class', 'struct')) and head.rstrip().endswith('{'):
-            protos.append(head.rstrip()[:-1].rstrip() + ';')
+        if rng.random() < 0.3:
+            txt = projgen._fmt(rng.choice(cg)[1], 's%d' % k, rng)
+            parts = [x for x in txt.split('\n\n') if x.strip()]
+        else:
+            sn = rng.choice(pool)
+            txt = projgen._fmt(sn[2], 's%d' % k, rng)
+            txt = txt.replace(' get()', ' get_s%d()' % k).replace(' calc(', ' calc_s%d(' % k)   # exclusion unique-member-names
+            parts = [txt]
+        for part in parts:
+            lines = part.rstrip('\n').split('\n') + ['']
+            head = lines[0]
+            if head.rstrip().endswith(';') and len(lines) == 2:
+                protos.append(head)         # a forward declaration of the group goes to the prelude
+                continue
+            blocks.append(lines)
+            if not head.startswith(('class', 'struct')) and head.rstrip().endswith('{'):
+                protos.append(head.rstrip()[:-1].rstrip() + ';')
     prelude = prelude + [''] + protos + ['']
     tail = ['int main(void) {', '    return 0;', '}', '']
     return prelude, blocks, tail
